@@ -120,7 +120,7 @@ int main(void) {
 	uint64_t seed; unsigned pool, pool2, caller_kind, caller_idx, api, nb, pass_src, wkind, nw, i, skip_first;
 	uint32_t flags, fail_mask; tp_settings_t s; int rc, timeout = 0; unsigned started = 0;
 
-	vdrv_case_secs = 120; vdrv_init();
+	vdrv_case_secs = 120; vdrv_init(); tm_watchdog(150);
 	c = vdrv_next_case(&len); if (!c) return 0;
 	in.p = c; in.n = len; in.o = 0; in.bad = 0;
 	seed = vin_u64(&in); pool = vin_u8(&in); pool2 = vin_u8(&in); caller_kind = vin_u8(&in); caller_idx = vin_u8(&in);
